@@ -2,7 +2,7 @@ import PetgraphModel.Proofs.AdjList
 /-
 C05, wave 3 — `adj::List` whole-graph iteration (`edge_count`, `edge_indices`, `edge_references`,
 `IntoEdges::edges`, `node_indices`) against the insertion log `ML`, and the index-type wrap of `add_node*`
-(finding D31).
+(finding D31, repaired by commit 8cab180: `add_node*` at the capacity is the documented panic).
 -/
 set_option linter.style.nameCheck false
 namespace PetgraphModel.AdjProofs
@@ -210,70 +210,82 @@ theorem LAbs.edgesOf {s : State} {g : ML} (h : LAbs s g) (a : Nat) :
 
 /-! ### capacity along a history -/
 
+/-- every call leaves the type parameter alone and changes the node count as `nAfterC` says -/
+theorem step_shape (s : State) (op : Op) :
+    (step s op).1.modulus = s.modulus ∧ (step s op).1.suc.length = nAfterC s.modulus s.suc.length op := by
+  cases op with
+  | addNode =>
+    by_cases h : s.modulus = 0 ∨ s.suc.length < s.modulus
+    · simp [step, AdjM.addNode, nextNodeIndex_fit s h, nAfterC, h]
+    · simp [step, AdjM.addNode, nextNodeIndex_full s h, nAfterC, h]
+  | addNodeFromEdges es =>
+    by_cases h : s.modulus = 0 ∨ s.suc.length < s.modulus
+    · simp [step, AdjM.addNodeFromEdges, nextNodeIndex_fit s h, nAfterC, h]
+    · simp [step, AdjM.addNodeFromEdges, nextNodeIndex_full s h, nAfterC, h]
+  | clear => exact ⟨rfl, rfl⟩
+  | addEdge a b w =>
+    simp only [step, AdjM.addEdge, nAfterC]
+    split
+    · rename_i h; split at h
+      · cases h
+      · split at h
+        · cases h
+        · injection h with h; injection h with h1 _; subst h1; simp
+    · exact ⟨rfl, rfl⟩
+  | updateEdge a b w =>
+    simp only [step, AdjM.updateEdge, nAfterC]
+    split
+    · rename_i h; split at h
+      · cases h
+      · split at h
+        · cases h
+        · split at h
+          · injection h with h; injection h with h1 _; subst h1; simp
+          · injection h with h; injection h with h1 _; subst h1; simp
+    · exact ⟨rfl, rfl⟩
+  | setEdgeWeight e w =>
+    simp only [step, AdjM.setEdgeWeight, nAfterC]
+    split
+    · rename_i h; split at h
+      · cases h
+      · split at h
+        · cases h
+        · injection h with h1; subst h1; simp
+    · exact ⟨rfl, rfl⟩
+
 theorem run_modulus (s : State) (ops : List Op) : (run s ops).1.modulus = s.modulus := by
   induction ops generalizing s with
   | nil => rfl
   | cons op ops ih =>
-    have hstep : (step s op).1.modulus = s.modulus := by
-      cases op with
-      | addNode => rfl
-      | addNodeFromEdges es => rfl
-      | clear => rfl
-      | addEdge a b w =>
-        simp only [step, AdjM.addEdge]
-        split
-        · rename_i h; split at h
-          · cases h
-          · split at h
-            · cases h
-            · injection h with h; injection h with h1 _; subst h1; rfl
-        · rfl
-      | updateEdge a b w =>
-        simp only [step, AdjM.updateEdge]
-        split
-        · rename_i h; split at h
-          · cases h
-          · split at h
-            · cases h
-            · split at h
-              · injection h with h; injection h with h1 _; subst h1; rfl
-              · injection h with h; injection h with h1 _; subst h1; rfl
-        · rfl
-      | setEdgeWeight e w =>
-        simp only [step, AdjM.setEdgeWeight]
-        split
-        · rename_i h; split at h
-          · cases h
-          · split at h
-            · cases h
-            · injection h with h1; subst h1; rfl
-        · rfl
     show (run (step s op).1 ops).1.modulus = _
-    rw [ih, hstep]
+    rw [ih, (step_shape s op).1]
 
-/-- a history within the capacity of the index type ends within it -/
-theorem fits_cap (m : Nat) (ops : List Op) (g : ML) (hf : Fits m g.n ops) (hc : m = 0 ∨ g.n ≤ m) :
-    m = 0 ∨ (specRun g ops).1.n ≤ m := by
+/-- no call takes the node count beyond the capacity of the index type -/
+theorem nAfterC_cap (m n : Nat) (op : Op) (hc : m = 0 ∨ n ≤ m) : m = 0 ∨ nAfterC m n op ≤ m := by
+  cases op with
+  | addNode => simp only [nAfterC]; split <;> omega
+  | addNodeFromEdges es => simp only [nAfterC]; split <;> omega
+  | clear => simp only [nAfterC]; omega
+  | addEdge a b w => exact hc
+  | updateEdge a b w => exact hc
+  | setEdgeWeight e w => exact hc
+
+/-- **every** history that starts within the capacity of the index type ends within it (`add_node*` panic
+rather than exceed it) -/
+theorem run_cap (m : Nat) (ops : List Op) (g : ML) (hc : m = 0 ∨ g.n ≤ m) :
+    m = 0 ∨ (specRun m g ops).1.n ≤ m := by
   induction ops generalizing g with
   | nil => exact hc
   | cons op ops ih =>
-    rw [fits_iff] at hf
-    show m = 0 ∨ (specRun (specStep g op).1 ops).1.n ≤ m
+    show m = 0 ∨ (specRun m (specStep m g op).1 ops).1.n ≤ m
     apply ih
-    · rw [specStep_n]; exact hf.2
-    · rw [specStep_n]
-      cases op with
-      | addNode => have := hf.1 (Or.inl rfl); simp only [nAfter]; omega
-      | addNodeFromEdges es => have := hf.1 (Or.inr ⟨es, rfl⟩); simp only [nAfter]; omega
-      | clear => simp only [nAfter]; omega
-      | addEdge a b w => exact hc
-      | updateEdge a b w => exact hc
-      | setEdgeWeight e w => exact hc
+    rw [specStep_n]
+    exact nAfterC_cap m g.n op hc
 
 /-- **whole-graph iteration after every history** -/
-theorem run_iteration (m : Nat) (ops : List Op) (hf : Fits m 0 ops) :
+theorem run_iteration (m : Nat) (ops : List Op) :
     let s := (run (AdjM.new m) ops).1
-    let g := (specRun {} ops).1
+    let g := (specRun m {} ops).1
     s.edgeCount = g.edges.length ∧
     edgeReferences s = ((List.range g.n).flatMap fun a => (g.outOf a).map refOf) ∧
     edgeIndices s = ((List.range g.n).flatMap fun a => (g.outOf a).map (·.id)) ∧
@@ -281,31 +293,79 @@ theorem run_iteration (m : Nat) (ops : List Op) (hf : Fits m 0 ops) :
     (∀ a, AdjM.edgesOf s a = if a < g.n then some ((g.outOf a).map refOf) else none) ∧
     ((List.range g.n).flatMap g.outOf).Perm g.edges := by
   intro s g
-  have habs : LAbs s g := (run_refines (new_abs m) ops hf).1
+  have habs : LAbs s g := (run_refines (new_abs m) ops).1
   have hcap : s.modulus = 0 ∨ g.n ≤ s.modulus := by
     have : s.modulus = m := run_modulus (AdjM.new m) ops
     rw [this]
-    exact fits_cap m ops {} hf (Or.inr (Nat.zero_le _))
+    exact run_cap m ops {} (Or.inr (Nat.zero_le _))
   obtain ⟨h1, h2, h3⟩ := habs.iteration hcap
   exact ⟨habs.edgeCount, h1, h2, h3, habs.edgesOf, habs.grouped_perm⟩
 
-/-! ### finding D31: `add_node*` wraps at the capacity of the index type -/
+/-! ### `add_node*` at the capacity of the index type (finding D31, repaired) -/
 
-/-- in general: at or beyond the capacity (`modulus ≤ node_count`, `modulus ≠ 0`) `add_node` /
-`add_node_from_edges` return `node_count % modulus` — the index of a node that already exists — while the
-specification answers the fresh index `node_count`. -/
-theorem addNode_wraps {s : State} {g : ML} (h : LAbs s g) (hm : s.modulus ≠ 0) (hc : s.modulus ≤ g.n) (es : Row) :
-    (step s .addNode).2 = .ix (g.n % s.modulus) ∧
-    (step s (.addNodeFromEdges es)).2 = .ix (g.n % s.modulus) ∧
-    g.n % s.modulus < g.n ∧
-    (specStep g .addNode).2 = .ix g.n ∧ (specStep g (.addNodeFromEdges es)).2 = .ix g.n ∧
-    (step s .addNode).2 ≠ (specStep g .addNode).2 := by
-  have hlt : g.n % s.modulus < g.n :=
-    Nat.lt_of_lt_of_le (Nat.mod_lt _ (Nat.pos_of_ne_zero hm)) hc
-  refine ⟨?_, ?_, hlt, rfl, rfl, ?_⟩
-  · simp [step, AdjM.addNode, mkIx, hm, h.n]
-  · simp [step, AdjM.addNodeFromEdges, mkIx, hm, h.n]
-  · simp only [step, AdjM.addNode, mkIx, hm, if_false, specStep, ML.addNode, ← h.n]
-    intro e; injection e with e; omega
+/-- **`add_node` / `add_node_with_capacity` / `Build::add_node` / `add_node_from_edges` and the capacity of the
+index type, in every state.**  At the capacity (`modulus ≠ 0`, `modulus ≤ node_count`; `u8`: 256 nodes) each of
+them panics — `none` — and the list is unchanged; below it the call succeeds, appends the row and returns the
+FRESH index `node_count`, which fits the index type (`Ix::new` does not change it). -/
+theorem addNode_capacity (s : State) (es : Row) :
+    (¬ (s.modulus = 0 ∨ s.nodeCount < s.modulus) →
+      AdjM.addNode s = none ∧ AdjM.addNodeFromEdges s es = none ∧
+      step s .addNode = (s, .panic) ∧ step s (.addNodeFromEdges es) = (s, .panic)) ∧
+    (s.modulus = 0 ∨ s.nodeCount < s.modulus →
+      AdjM.addNode s = some ({ s with suc := s.suc ++ [[]] }, s.nodeCount) ∧
+      AdjM.addNodeFromEdges s es = some ({ s with suc := s.suc ++ [es] }, s.nodeCount) ∧
+      step s .addNode = ({ s with suc := s.suc ++ [[]] }, .ix s.nodeCount) ∧
+      step s (.addNodeFromEdges es) = ({ s with suc := s.suc ++ [es] }, .ix s.nodeCount) ∧
+      mkIx s.modulus s.nodeCount = s.nodeCount) := by
+  unfold State.nodeCount
+  refine ⟨fun h => ?_, fun h => ?_⟩
+  · simp [step, AdjM.addNode, AdjM.addNodeFromEdges, nextNodeIndex_full s h]
+  · simp [step, AdjM.addNode, AdjM.addNodeFromEdges, nextNodeIndex_fit s h, mkIx_of_fits _ _ h]
+
+/-- the node index an answer carries, if it is one -/
+def outIx : Out → Option Nat
+  | .ix i => some i
+  | _ => none
+
+/-- a returned node index is the node count at the time of the call and fits the index type -/
+theorem step_ix (s : State) (op : Op) (i : Nat) (h : outIx (step s op).2 = some i) :
+    (s.modulus = 0 ∨ i < s.modulus) ∧ i = s.suc.length := by
+  cases op with
+  | addNode =>
+    by_cases hf : s.modulus = 0 ∨ s.suc.length < s.modulus
+    · simp only [step, AdjM.addNode, nextNodeIndex_fit s hf, mkIx_of_fits _ _ hf, outIx, Option.some.injEq] at h
+      subst h; exact ⟨hf, rfl⟩
+    · simp [step, AdjM.addNode, nextNodeIndex_full s hf, outIx] at h
+  | addNodeFromEdges es =>
+    by_cases hf : s.modulus = 0 ∨ s.suc.length < s.modulus
+    · simp only [step, AdjM.addNodeFromEdges, nextNodeIndex_fit s hf, mkIx_of_fits _ _ hf, outIx,
+        Option.some.injEq] at h
+      subst h; exact ⟨hf, rfl⟩
+    · simp [step, AdjM.addNodeFromEdges, nextNodeIndex_full s hf, outIx] at h
+  | clear => simp [step, outIx] at h
+  | addEdge a b w => simp only [step] at h; split at h <;> simp [outIx] at h
+  | updateEdge a b w => simp only [step] at h; split at h <;> simp [outIx] at h
+  | setEdgeWeight e w => simp only [step] at h; split at h <;> simp [outIx] at h
+
+/-- **no wrap in any history**: along every history from a state whose node count is within the capacity of
+the index type, the node count never exceeds the capacity and every node index an `add_node*` call returns fits
+the index type (`< modulus`; it is the node count at the time of the call). -/
+theorem run_no_wrap (s : State) (hc : s.modulus = 0 ∨ s.suc.length ≤ s.modulus) (ops : List Op) :
+    (s.modulus = 0 ∨ (run s ops).1.nodeCount ≤ s.modulus) ∧
+    ∀ i, some i ∈ (run s ops).2.map outIx → s.modulus = 0 ∨ i < s.modulus := by
+  induction ops generalizing s with
+  | nil => exact ⟨hc, by intro i hi; simp [run] at hi⟩
+  | cons op ops ih =>
+    obtain ⟨hm, hl⟩ := step_shape s op
+    have hc1 : (step s op).1.modulus = 0 ∨ (step s op).1.suc.length ≤ (step s op).1.modulus := by
+      rw [hm, hl]; exact nAfterC_cap _ _ op hc
+    obtain ⟨ih1, ih2⟩ := ih (step s op).1 hc1
+    rw [hm] at ih1 ih2
+    refine ⟨by simpa [run] using ih1, ?_⟩
+    intro i hi
+    simp only [run, List.map_cons, List.mem_cons] at hi
+    rcases hi with hi | hi
+    · exact (step_ix s op i hi.symm).1
+    · exact ih2 i hi
 
 end PetgraphModel.AdjProofs
